@@ -774,9 +774,20 @@ func (s *Switch) ForwardPackets(linkQuit <-chan struct{},
 
 	// Now, forward any packets for circuits that were successfully added to
 	// the switch's circuit map.
-	for _, packet := range addedPackets {
+	for i, packet := range addedPackets {
 		err := s.routeAsync(packet, fwdChan, linkQuit)
 		if err != nil {
+			// The remaining packets were never handed to the
+			// switch although their circuits have been committed
+			// above. If only the incoming link is going down, it
+			// will replay this batch once it is back, and the
+			// circuits left behind would make that replay drop the
+			// adds as duplicates that are still in flight. Remove
+			// them so the replay can forward the adds.
+			if errors.Is(err, ErrLinkShuttingDown) {
+				s.removeUnforwardedCircuits(addedPackets[i:])
+			}
+
 			return fmt.Errorf("failed to forward packet %w", err)
 		}
 		numSent++
@@ -821,6 +832,20 @@ func (s *Switch) ForwardPackets(linkQuit <-chan struct{},
 	}
 
 	return nil
+}
+
+// removeUnforwardedCircuits deletes the circuits of add packets that were
+// committed to the circuit map but never handed to the switch.
+func (s *Switch) removeUnforwardedCircuits(packets []*htlcPacket) {
+	inKeys := make([]CircuitKey, 0, len(packets))
+	for _, packet := range packets {
+		inKeys = append(inKeys, packet.inKey())
+	}
+
+	if err := s.circuits.DeleteCircuits(inKeys...); err != nil {
+		log.Errorf("unable to remove circuits of unforwarded "+
+			"packets: %v", err)
+	}
 }
 
 // logFwdErrs logs any errors received on `fwdChan`.
